@@ -211,7 +211,7 @@ def expect(frag):
         if sub is None:
             continue
         nested = True
-        satoms, sbonds, _, _ = expect(sub)
+        satoms, sbonds, smarks, _ = expect(sub)
         i = [k for k, a in enumerate(atoms) if a.get("id") == n.get("id")][0]
         j = [k for k, a in enumerate(satoms) if a["ap"]][0]
         bi = [b for b in bonds if i in b[:2]]
@@ -229,7 +229,8 @@ def expect(frag):
         nb.append((m1[ri], m2[rj], "1", 1.0))
         atoms = [atoms[k] for k in keep1] + [satoms[k] for k in keep2]
         bonds = nb
-        marks = []          # indices shift; geometry of composite fragments is not modelled anyway
+        marks = [(m1[x], m1[y], d) for x, y, d in marks if i not in (x, y)] \
+            + [(m2[x], m2[y], d) for x, y, d in smarks if j not in (x, y)]
     return atoms, bonds, marks, nested
 
 
@@ -849,6 +850,8 @@ def coverage_flags(ctx, rep, gcases, gmeta):
     """How many geometry cases the model really covers (g_covered), evaluated by Coq: evidence only."""
     if not gcases:
         return
+    if not ctx.thorough:
+        gcases = gcases[::4]          # quick tier: every fourth case (evidence only)
     d = ctx.sub("shards_geomcov")
     files = []
     for k in range(0, len(gcases), 12):
@@ -1030,14 +1033,17 @@ def judge_labels(ctx, rep, ml, fr, nm, kind, per_frag, viol, replay, rcases, rme
                 and np.array_equal(per_frag[i]["obs"]["coords"], o1["coords"])]
         lp = position(fr.labels[key])
         d = sorted((abs(p[0] - lp[0]) + abs(p[1] - lp[1]), i) for i, p in enumerate(fpos))
-        tie = any(abs(d[i][0] - d[i + 1][0]) < 1e-6 for i in range(min(5, len(d) - 1)))
+        tie = any(abs(d[i][0] - d[i + 1][0]) < 1e-3 for i in range(min(5, len(d) - 1))) \
+            or any(abs(fpos[i][1] - lp[1]) < 1e-3 for _, i in d[:5])
         if len(hits) == 1 and not tie and len(fpos) >= 5:
             obs_pairs.append((key, hits[0]))
         else:
             rep.count("labels:not-modelled(" + ("ambiguous" if len(hits) != 1 else "tie" if tie else "few-fragments") + ")")
     if obs_pairs:
         try:
-            qp = lambda p: f"({cq_Q(Fr(p[0]))}, {cq_Q(Fr(p[1]))})"
+            # positions on the 2^-16 grid, scaled to integers (order and the L1 ranking are scale-invariant; ties and
+            # near-equal heights, where rounding could matter, were excluded above)
+            qp = lambda p: f"({cq_Q(Fr(round(p[0] * 65536)))}, {cq_Q(Fr(round(p[1] * 65536)))})"
             term = ("(" + cq_list(qp(p) for p in fpos) + ", "
                     + cq_list(f"(mkLabel {cq_s(k)} {qp(position(fr.labels[k]))})" for k, _ in obs_pairs) + ", "
                     + cq_list(f"({cq_s(k)}, Some {cq_nat(i)})" for k, i in obs_pairs) + ")")
